@@ -96,7 +96,11 @@ def run(tier, seed):
     col.merge(stepcheck.explore(lit, MONS, 0, 0, seed=seed))
     # runs stopped at step k and continued, with a worker's / facility's own absence list edited at the stop; second runs after such edits
     col.merge(stepcheck.explore(stepcheck.resumed_edit_items(("worker-absence-append-3",), ks=(1, 2, 3)) + stepcheck.resumed_edit_items(("worker-absence-inplace",), ks=(1,))
-                                + stepcheck.edited_items(names=("worker-absence-inplace", "worker-absence-move", "worker-absence-append-3", "facility-absence-inplace")), MONS, 0, 0, seed=seed))
+                                + stepcheck.resumed_edit_items(("worker-skill", "add-ff-link"), ks=(1,))  # a skill revised / a finish-to-finish link added at a stop, the run continued on the same objects
+                                + stepcheck.edited_items(names=("worker-absence-inplace", "worker-absence-move", "worker-absence-append-3", "facility-absence-inplace", "worker-skill", "add-ff-link")), MONS, 0, 0, seed=seed))
+    # two links between one pair declared with extend_input_task_list, in backward runs
+    dl = [(dict(sp, link_api=api), {"rule": "TSLACK", "max_time": F.seq_bound(sp) + 12, "backward": True, "rev": False}) for sp in F.double_link_specs() for api in ("extend", None)]
+    col.merge(stepcheck.explore(dl, MONS, 0, 0, seed=seed))
     # backward runs (inner run observed) with project-wide absence steps and both values of the automatic-task flag; forward and backward results
     # (logs reversed) whose absence steps - some of them named beyond the end of the run - are deleted afterwards
     bsel = [(sp, o) for sp, o in its if not sp.get("order")][:: (6 if tier == "quick" else 2)]
